@@ -23,7 +23,7 @@ import (
 
 func init() {
 	props["C20"] = &propDef{
-		rule: "cases = scenarios: a pool of shared read-only inputs (clear and cenc/cbcs-encrypted fragmented files built from AVC/HEVC/AAC samples, generated progressive files, repo test files, single-box blobs) x tasks {decode via io.Reader / slice reader / lazy mdat, Info at several levels, re-encode, sample extraction + NAL inspection, in-place Annex B conversion on the goroutine's own decoded samples, encrypt (InitProtect+EncryptFragment), decrypt (DecryptInit+DecryptSegment), DecodeBox/DecodeBoxSR}; every task is first run alone, then all tasks of the scenario run in parallel goroutines (several rounds, GOMAXPROCS 1..16) under the race detector; checks: each goroutine's digest equals its solo digest, the shared input bytes are unchanged, and the race detector reports nothing inside mp4ff; non-trivial = distinct (task, input) pair",
+		rule: "cases = scenarios: a pool of shared read-only inputs (clear and cenc/cbcs-encrypted fragmented files built from AVC/HEVC/AAC samples, generated progressive files, repo test files, single-box blobs, AC-3/E-AC-3 init segments, one shared table of 8-byte IVs) x tasks {decode via io.Reader / slice reader / lazy mdat, Info at several levels, re-encode, sample extraction + NAL inspection, in-place Annex B conversion on the goroutine's own decoded samples, encrypt (InitProtect+EncryptFragment, 16-byte IVs and 8-byte IVs cut from the shared table), AC-3/E-AC-3 channel-layout helpers, decrypt (DecryptInit+DecryptSegment), DecodeBox/DecodeBoxSR}; every task is first run alone, then all tasks of the scenario run in parallel goroutines (several rounds, GOMAXPROCS 1..16) under the race detector; checks: each goroutine's digest equals its solo digest, the shared input bytes are unchanged, and the race detector reports nothing inside mp4ff; non-trivial = distinct (task, input) pair",
 		gen:  genC20,
 		exec: execC20,
 	}
@@ -36,6 +36,10 @@ type c20Input struct {
 	scheme string // "" clear | cenc | cbcs
 	kind   string // frag | prog | box
 }
+
+// c20IVTable: 8-byte IVs cut from ONE shared table (each sub-slice has spare capacity behind it): shared, read-only input
+var c20IVTable = []byte{0xa1, 2, 3, 4, 5, 6, 7, 8, 0xb1, 12, 13, 14, 15, 16, 17, 18, 0xc1, 22, 23, 24, 25, 26, 27, 28, 0xd1, 32, 33, 34, 35, 36, 37, 38,
+	0xe1, 42, 43, 44, 45, 46, 47, 48, 0xf1, 52, 53, 54, 55, 56, 57, 58, 0x91, 62, 63, 64, 65, 66, 67, 68, 0x81, 72, 73, 74, 75, 76, 77, 78}
 
 type c20Task struct {
 	op string
@@ -170,6 +174,11 @@ func runTask(t c20Task) (out string) {
 		}
 		key := []byte("0123456789abcdef")
 		iv := []byte{1, 2, 3, 4, 5, 6, 7, 8, 0, 0, 0, 0, 0, 0, 0, 0}
+		if len(f) > 3 && f[3] == "iv8" {
+			// an 8-byte IV that is a window into the shared table
+			k := (len(t.in.name) + len(f[1]) + len(f[2])) % 8
+			iv = c20IVTable[8*k : 8*k+8]
+		}
 		kid, _ := mp4.NewUUIDFromString("11112222333344445555666677778888")
 		ipd, err := mp4.InitProtect(file.Init, key, iv, f[2], kid, nil)
 		if err != nil {
@@ -206,6 +215,28 @@ func runTask(t c20Task) (out string) {
 			return "enc err: " + err.Error()
 		}
 		return digest(eb.Bytes())
+	case "chaninfo": // AC-3 / E-AC-3 configuration boxes: channel layout helpers and Info
+		file, err := decodeBy(f[1], in)
+		if err != nil {
+			return "err: " + err.Error()
+		}
+		h := sha256.New()
+		for _, tr := range file.Init.Moov.Traks {
+			stsd := tr.Mdia.Minf.Stbl.Stsd
+			for rep := 0; rep < 20; rep++ {
+				if stsd.AC3 != nil && stsd.AC3.Dac3 != nil {
+					n, m := stsd.AC3.Dac3.ChannelInfo()
+					fmt.Fprint(h, n, m, stsd.AC3.Dac3.BitrateBps(), stsd.AC3.Dac3.SamplingFrequency())
+					_ = stsd.AC3.Dac3.Info(h, "all:1", "", " ")
+				}
+				if stsd.EC3 != nil && stsd.EC3.Dec3 != nil {
+					n, m := stsd.EC3.Dec3.ChannelInfo()
+					fmt.Fprint(h, n, m)
+					_ = stsd.EC3.Dec3.Info(h, "all:1", "", " ")
+				}
+			}
+		}
+		return fmt.Sprintf("%x", h.Sum(nil)[:10])
 	case "box":
 		var b mp4.Box
 		var err error
@@ -279,6 +310,27 @@ func c20BuildInputs(r *rand.Rand, thorough bool) []*c20Input {
 			ins = append(ins, &c20Input{name: scheme + "-" + src.codec, data: eb.Bytes(), key: key, scheme: scheme, kind: "frag"})
 		}
 	}
+	// AC-3 / E-AC-3 init segments: same acmod, different LFE / channel location bits
+	for _, v := range [][3]byte{{2, 0, 0}, {2, 1, 0}, {7, 0, 0}, {7, 1, 0}, {7, 1, 1}, {7, 0, 1}} {
+		for _, kind := range []string{"ac3", "ec3"} {
+			init := mp4.CreateEmptyInit()
+			init.AddEmptyTrack(48000, "audio", "und")
+			var err error
+			if kind == "ac3" {
+				err = init.Moov.Trak.SetAC3Descriptor(&mp4.Dac3Box{FSCod: 0, BSID: 8, ACMod: v[0], LFEOn: v[1], BitRateCode: 10})
+			} else {
+				sub := mp4.EC3Sub{FSCod: 0, BSID: 16, ACMod: v[0], LFEOn: v[1]}
+				if v[2] == 1 {
+					sub.NumDepSub, sub.ChanLoc = 1, 0x0003
+				}
+				err = init.Moov.Trak.SetEC3Descriptor(&mp4.Dec3Box{DataRate: 192, EC3Subs: []mp4.EC3Sub{sub}})
+			}
+			var ib bytes.Buffer
+			if err == nil && init.Encode(&ib) == nil {
+				ins = append(ins, &c20Input{name: fmt.Sprintf("%s-acmod%d-lfe%d-loc%d", kind, v[0], v[1], v[2]), data: ib.Bytes(), kind: "acinit"})
+			}
+		}
+	}
 	np := 2
 	if thorough {
 		np = 5
@@ -342,11 +394,15 @@ func c20Tasks(ins []*c20Input) []c20Task {
 				ts = append(ts, c20Task{"info-enc/" + p + "/all:1", in}, c20Task{"samples/" + p, in})
 			}
 			ts = append(ts, c20Task{"info-enc/rd/trun:1,stss:1", in}, c20Task{"info-enc/sr/", in})
+		case "acinit":
+			for _, p := range []string{"rd", "sr"} {
+				ts = append(ts, c20Task{"chaninfo/" + p, in}, c20Task{"info-enc/" + p + "/all:1", in})
+			}
 		case "frag":
 			for _, p := range []string{"rd", "sr"} {
 				ts = append(ts, c20Task{"info-enc/" + p + "/all:1", in}, c20Task{"info-enc/" + p + "/moof:1,senc:1", in}, c20Task{"samples/" + p, in})
 				if in.scheme == "" {
-					ts = append(ts, c20Task{"encrypt/" + p + "/cenc", in}, c20Task{"encrypt/" + p + "/cbcs", in})
+					ts = append(ts, c20Task{"encrypt/" + p + "/cenc", in}, c20Task{"encrypt/" + p + "/cbcs", in}, c20Task{"encrypt/" + p + "/cenc/iv8", in}, c20Task{"encrypt/" + p + "/cbcs/iv8", in})
 					if strings.Contains(in.name, "avc") {
 						ts = append(ts, c20Task{"annexb/" + p, in})
 					}
@@ -463,6 +519,14 @@ func genC20(c *Ctx) {
 		inDigest[in.name] = digest(in.data)
 		c.Count("input=" + in.kind + "/" + in.scheme)
 	}
+	ivTableDigest := digest(c20IVTable)
+	checkIVTable := func(when string) {
+		if d := digest(c20IVTable); d != ivTableDigest {
+			c.Fail("C20-input-mutated ivtable", "the shared table of initialization vectors (read-only input of the encryption calls) was written to", "ivtable "+when+" seed "+fmt.Sprint(c.Seed), d, ivTableDigest)
+			copy(c20IVTable, []byte{0xa1, 2, 3, 4, 5, 6, 7, 8, 0xb1, 12, 13, 14, 15, 16, 17, 18, 0xc1, 22, 23, 24, 25, 26, 27, 28, 0xd1, 32, 33, 34, 35, 36, 37, 38,
+				0xe1, 42, 43, 44, 45, 46, 47, 48, 0xf1, 52, 53, 54, 55, 56, 57, 58, 0x91, 62, 63, 64, 65, 66, 67, 68, 0x81, 72, 73, 74, 75, 76, 77, 78})
+		}
+	}
 	// solo results
 	solo := make([]string, len(tasks))
 	for i, t := range tasks {
@@ -485,6 +549,7 @@ func genC20(c *Ctx) {
 			inDigest[t.in.name] = digest(t.in.data)
 		}
 	}
+	checkIVTable("after the solo runs")
 	// concurrent rounds
 	rounds := c.N(4, 80)
 	for round := 0; round < rounds; round++ {
@@ -520,6 +585,7 @@ func genC20(c *Ctx) {
 				}
 			}
 		}
+		checkIVTable(fmt.Sprintf("after concurrent round %d", round))
 		for _, in := range ins {
 			if d := digest(in.data); d != inDigest[in.name] {
 				c.Fail("C20-input-mutated-concurrent "+in.kind+"/"+in.scheme, "the shared input bytes changed during the concurrent round", fmt.Sprintf("round %d input %s seed %d", round, in.name, c.Seed), d, inDigest[in.name])
